@@ -240,6 +240,9 @@ func runC15(r *Run) {
 		vb := decBinVariants(mode, bin)
 		outB := make([]byte, len(vb))
 		for i, v := range vb {
+			if decStalled() {
+				return
+			}
 			o := decDeserialize(v)
 			outB[i] = decClassify(back, o)
 			r.Count("binvar/" + string(outB[i]))
@@ -257,6 +260,9 @@ func runC15(r *Run) {
 		vs := decStrVariants(mode, str)
 		outS := make([]byte, len(vs))
 		for i, v := range vs {
+			if decStalled() {
+				return
+			}
 			o := decDecodeString(v)
 			outS[i] = decClassify(sback, o)
 			r.Count("strvar/" + string(outS[i]))
@@ -306,7 +312,7 @@ func runC15(r *Run) {
 		return
 	}
 
-	for c := 0; c < r.N; c++ {
+	for c := 0; c < r.N && len(r.Violations) < 20 && !decStalled(); c++ {
 		t, wf := decRandTicket(r.Rng, r.Count)
 		// the alteration sweep is the expensive part: every 4th ticket
 		full := c%4 == 0
